@@ -120,4 +120,42 @@ def r_module_state(repo, rep, R, rels, consequence, only=None):
                     rep.violation(R, '%s:%s %s' % (rel, n_.lineno, qualname_of(fn)), '%s:%s:module-state:%s' % (rel, qualname_of(fn), hit[0]),
                                   '%s writes to the module-level object `%s` (%s): %s'
                                   % (qualname_of(fn), hit[0], hit[1], consequence))
+        # objects created in a class body (plain class attributes, dataclass field defaults that are not factories) are one
+        # object for all instances: a method that consumes or changes it through `self` changes it for every later instance
+        for cls in [c for c in ast.walk(mod.tree) if isinstance(c, ast.ClassDef)]:
+            cattr = {}
+            for st_ in cls.body:
+                if isinstance(st_, (ast.Assign, ast.AnnAssign)) and st_.value is not None:
+                    v = st_.value
+                    if isinstance(v, ast.Call) and src(v.func) in ('field', 'dataclasses.field'):
+                        dflt = [k.value for k in v.keywords if k.arg == 'default']
+                        v = dflt[0] if dflt else None
+                    if v is None:
+                        continue
+                    is_obj = (isinstance(v, ast.Call) and src(v.func) not in PURE_MAKERS) or isinstance(v, (ast.List, ast.Dict, ast.Set, ast.ListComp, ast.DictComp, ast.SetComp))
+                    if is_obj:
+                        for t in (st_.targets if isinstance(st_, ast.Assign) else [st_.target]):
+                            if isinstance(t, ast.Name):
+                                cattr[t.id] = st_
+            if not cattr:
+                continue
+            n_shared += len(cattr)
+            meths = [f for f in cls.body if isinstance(f, ast.FunctionDef) and f.args.args]
+            rebound = {t.attr for f in meths for n_ in ast.walk(f) if isinstance(n_, ast.Assign) for t in n_.targets
+                       if isinstance(t, ast.Attribute) and isinstance(t.value, ast.Name) and t.value.id == f.args.args[0].arg}
+            for f in meths:
+                me = f.args.args[0].arg
+                is_attr = lambda e: isinstance(e, ast.Attribute) and isinstance(e.value, ast.Name) and e.value.id == me and e.attr in cattr and e.attr not in rebound
+                for n_ in ast.walk(f):
+                    hit = None
+                    if isinstance(n_, ast.Call) and isinstance(n_.func, ast.Attribute) and is_attr(n_.func.value) and n_.func.attr in WRITES:
+                        hit = (n_.func.value.attr, '.%s()' % n_.func.attr)
+                    if isinstance(n_, ast.Call) and isinstance(n_.func, ast.Name) and n_.func.id == 'next' and n_.args and is_attr(n_.args[0]):
+                        hit = (n_.args[0].attr, 'drawn from with next()')
+                    if isinstance(n_, ast.Subscript) and isinstance(n_.ctx, (ast.Store, ast.Del)) and is_attr(n_.value):
+                        hit = (n_.value.attr, 'item assigned')
+                    if hit:
+                        rep.violation(R, '%s:%s %s' % (rel, n_.lineno, qualname_of(f)), '%s:%s:class-state:%s' % (rel, qualname_of(f), hit[0]),
+                                      '%s changes `%s` (%s), an object created once in the body of class %s and shared by all its instances: %s'
+                                      % (qualname_of(f), hit[0], hit[1], cls.name, consequence))
     return n_shared
